@@ -136,6 +136,21 @@ Additions for the prediction code (common.copy_array_with_control_treatments_set
                       `zip(...)`), without a condition: map over a tuple pattern; res_map_all when f may raise
   cfg["assign_effects"]  a template starting with `!` denotes a `result state` (the store may raise, e.g. numpy's
                       `a[mask, ...] = 0.0` with a mask of the wrong length): `dor state <- template;`
+Additions for synergy.py / data.py / models/main.py (calculate_synergy, create_single_treatment_effect_map / _array, ModelEvaluation):
+  `pairdict T`        a dict whose keys are PAIRS of integers, values of type T (insertion-ordered `list ((Z * Z) * T)`), all
+                      operations type-directed on a variable bound at that type: `{}`, `d[(a, b)] = v` (PyRt.pdict_set: an
+                      existing key keeps its place), `(a, b) in d` / `not in` (pdict_mem), and the read `d[(a, b)]`
+                      (pdict_read: KeyError = Err cfg["key_error"]; refused when that tag is not declared).  Any other
+                      subscript of such a variable is refused.
+  for i, (a, b, c) in enumerate(zip(...))   one level of nesting in a loop target: the element type of the iterated list must
+                      be a tuple of tuples of exactly that shape
+  a loop target that is bound before the loop at ANOTHER type than the elements' (Python rebinds the name, e.g. the
+                      parameter `observation` reused as the row's scalar): inside the body it has the element type, it is
+                      not carried, and after the loop it is poisoned (`tt`), so a later read is a Coq type error
+  cfg["arith"]        {type name: {"Add" / "Sub" / "Mult" / "Div": Gallina binary function}}: `x op y` on two values of one
+                      declared numeric type (exact rationals for floats); an operator that is not declared is refused
+  cfg["float_consts"] {repr of a float literal: (Gallina term, type)}: the only float literals accepted
+  `a[i, j] = v`       a : list (list T) with cfg["index_error"] = tag: PyRt.list_set2 (both indices wrap once, IndexError outside)
 """
 import ast
 
@@ -161,6 +176,8 @@ def parse_type(s):
         return ("dictof", parse_type(s[5:]))
     if s == "set":
         return ("set",)
+    if s.startswith("pairdict "):
+        return ("pairdict", parse_type(s[9:]))
     return (s,)
 
 
@@ -193,6 +210,8 @@ def coq_type(t):
         return "(list (Z * %s))" % coq_type(t[1])
     if t[0] == "set":
         return "(list Z)"
+    if t[0] == "pairdict":
+        return "(list ((Z * Z) * %s))" % coq_type(t[1])
     return t[0]
 
 
@@ -290,6 +309,8 @@ class Tr:
 
     # ---- expressions: returns (term, type); appends checked unwraps to hoist [(name, term)]
     def expr(self, e, env, hoist, want=None):
+        if isinstance(e, ast.Subscript) and isinstance(e.value, ast.Name) and env.get(e.value.id, ("unit",))[0] == "pairdict":
+            return self.pairdict_read(e, env, hoist)     # type-directed, before any prim pattern such as `__a[__m]`
         misfit = None      # cfg["overload"]: the refusal of the last prim whose pattern matched but whose hole types did not fit
         for pat, tmpl, ty, argtys in self.prims:
             binds = {}
@@ -349,6 +370,9 @@ class Tr:
                 return ("true" if e.value else "false"), ("bool",)
             if isinstance(e.value, int):
                 return "(%d)" % e.value, ("Z",)
+            if isinstance(e.value, float) and repr(e.value) in self.cfg.get("float_consts", {}):
+                term, ty = self.cfg["float_consts"][repr(e.value)]
+                return "(%s)" % term, parse_type(ty)
             raise Unsupported("constant: %r" % (e.value,))
         if isinstance(e, ast.List):
             if not e.elts:
@@ -421,6 +445,11 @@ class Tr:
             r, rt = self.expr(e.right, env, hoist)
             if isinstance(e.op, ast.Add) and (lt[0] == "list" or rt[0] == "list"):
                 return "(%s ++ %s)" % (l, r), (lt if lt[0] == "list" else rt)
+            if lt == rt and len(lt) == 1 and lt[0] in self.cfg.get("arith", {}):      # cfg["arith"]: a declared numeric type
+                fn = self.cfg["arith"][lt[0]].get(type(e.op).__name__)
+                if fn is None:
+                    raise Unsupported("operator not declared for %s: %s" % (lt[0], ast.unparse(e)))
+                return "(%s %s %s)" % (fn, l, r), lt
             l, r = self.need(l, lt, ("Z",), hoist), self.need(r, rt, ("Z",), hoist)
             ops = {ast.Add: "+", ast.Sub: "-", ast.Mult: "*", ast.FloorDiv: "/", ast.Mod: "mod"}
             if type(e.op) not in ops:
@@ -484,6 +513,16 @@ class Tr:
         body = "".join("dor %s <- %s; " % nt for nt in inner) + "Ok " + f
         hoist.append((n, "res_map_all (fun %s => %s) %s" % (pat, body, l)))
         return n, ("list", ft)
+    def pairdict_read(self, e, env, hoist):
+        """d[(a, b)] with d bound at `pairdict T`: a checked read, KeyError = Err cfg["key_error"]"""
+        tag = self.cfg.get("key_error")
+        if tag is None or not (isinstance(e.slice, ast.Tuple) and len(e.slice.elts) == 2) or self.M["type"] != "result":
+            raise Unsupported("subscript of a pair-keyed dict other than d[(a, b)] with a declared key_error: " + ast.unparse(e))
+        a, at = self.expr(e.slice.elts[0], env, hoist)
+        b, bt = self.expr(e.slice.elts[1], env, hoist)
+        n = self.new("r")
+        hoist.append((n, "pdict_read (%d) %s %s %s" % (tag, e.value.id, self.need(a, at, ("Z",), hoist), self.need(b, bt, ("Z",), hoist))))
+        return n, env[e.value.id][1]
 
     def kwcall(self, e, env, hoist):
         """cfg["kwcalls"]: F(k1=e1, ..., kn=en) -> the callee's template over its full parameter list; a parameter the call
@@ -530,6 +569,8 @@ class Tr:
         if want in (("dict",), ("set",)) and have == EMPTY_T:
             return "[]"
         if want[0] == "dictof" and have == EMPTY_T:
+            return "[]"
+        if want[0] == "pairdict" and have == EMPTY_T:
             return "[]"
         if {have, want} == {("dict",), ("dictof", ("Z",))}:
             return term
@@ -579,6 +620,12 @@ class Tr:
             if t[0] != "opt":
                 raise Unsupported("`is None` on a non-option: " + ast.unparse(le))
             return ("(is_none %s)" if isinstance(op, ast.Is) else "(is_some %s)") % v
+        if isinstance(op, (ast.In, ast.NotIn)) and isinstance(le, ast.Tuple) and len(le.elts) == 2 \
+                and isinstance(re, ast.Name) and env.get(re.id, ("unit",))[0] == "pairdict":
+            a, at = self.expr(le.elts[0], env, hoist)
+            b, bt = self.expr(le.elts[1], env, hoist)
+            r = "(pdict_mem %s %s %s)" % (re.id, self.need(a, at, ("Z",), hoist), self.need(b, bt, ("Z",), hoist))
+            return r if isinstance(op, ast.In) else "(negb %s)" % r
         if isinstance(op, (ast.In, ast.NotIn)):
             x, xt = self.expr(le, env, hoist)
             c, ct = self.expr(re, env, hoist)
@@ -686,7 +733,7 @@ class Tr:
                 for n in self.assigned(st.body) + self.assigned(st.orelse):
                     add(n)
             elif isinstance(st, ast.For):
-                for n in self.targets(st.target) + self.assigned(st.body):
+                for n in self.targets(st.target, nested=True) + self.assigned(st.body):
                     if n != "_":
                         add(n)
                 if st.orelse:
@@ -709,11 +756,13 @@ class Tr:
                 raise Unsupported("statement: " + ast.unparse(st)[:80])
         return out
 
-    def targets(self, t):
+    def targets(self, t, nested=False):
         if isinstance(t, ast.Name):
             return [t.id]
         if isinstance(t, ast.Tuple) and all(isinstance(x, ast.Name) for x in t.elts):
             return [x.id for x in t.elts]
+        if nested and isinstance(t, ast.Tuple) and all(isinstance(x, (ast.Name, ast.Tuple)) for x in t.elts):
+            return [n for x in t.elts for n in self.targets(x)]      # one level of nesting (loop targets only)
         raise Unsupported("loop target: " + ast.unparse(t))
 
     def effect_of(self, call):
@@ -827,6 +876,16 @@ class Tr:
                         else:
                             term = self.cfg["mask_store"]["scalar"].format(a=d, m=mm, v=self.need(vv, vt, dt[1], hoist))
                         return self.bind_hoist(hoist, "%sdor %s <- %s;\n" % (ind, d, term), ind) + self.block(rest, env, k, ind)
+                if dt is not None and dt[0] == "list" and dt[1][0] == "list" and self.cfg.get("index_error") is not None \
+                        and self.M["type"] == "result" and isinstance(tgt.slice, ast.Tuple) and len(tgt.slice.elts) == 2:
+                    # a[i, j] = v on a 2-d array (list of rows): IndexError (tag cfg["index_error"]) when either index is out of range
+                    ii, it = self.expr(tgt.slice.elts[0], env, hoist)
+                    jj, jt = self.expr(tgt.slice.elts[1], env, hoist)
+                    vv, vt = self.expr(st.value, env, hoist)
+                    txt = "%sdor %s <- list_set2 (%d) %s %s %s %s;\n" % (
+                        ind, d, self.cfg["index_error"], d, self.need(ii, it, ("Z",), hoist), self.need(jj, jt, ("Z",), hoist),
+                        self.need(vv, vt, dt[1][1], hoist))
+                    return self.bind_hoist(hoist, txt, ind) + self.block(rest, env, k, ind)
                 if dt is not None and dt[0] == "list" and self.cfg.get("index_error") is not None and self.M["type"] == "result":
                     # a[i] = v on a list / numpy array: IndexError (tag cfg["index_error"]) outside -len..len-1
                     ii, it = self.expr(tgt.slice, env, hoist)
@@ -834,6 +893,15 @@ class Tr:
                     txt = "%sdor %s <- list_set (%d) %s %s %s;\n" % (ind, d, self.cfg["index_error"], d, self.need(ii, it, ("Z",), hoist),
                                                                      self.need(vv, vt, dt[1], hoist))
                     return self.bind_hoist(hoist, txt, ind) + self.block(rest, env, k, ind)
+                if dt is not None and dt[0] == "pairdict":      # d[(a, b)] = v on a pair-keyed dict
+                    if not (isinstance(tgt.slice, ast.Tuple) and len(tgt.slice.elts) == 2):
+                        raise Unsupported("store to a pair-keyed dict other than d[(a, b)] = v: " + ast.unparse(st))
+                    ka, kat = self.expr(tgt.slice.elts[0], env, hoist)
+                    kb, kbt = self.expr(tgt.slice.elts[1], env, hoist)
+                    vv, vt = self.expr(st.value, env, hoist)
+                    term = "(pdict_set %s %s %s %s)" % (d, self.need(ka, kat, ("Z",), hoist), self.need(kb, kbt, ("Z",), hoist),
+                                                       self.need(vv, vt, dt[1], hoist))
+                    return self.bind_hoist(hoist, "%slet %s := %s in\n" % (ind, d, term), ind) + self.block(rest, env, k, ind)
                 if dt is None or dt[0] not in ("dict", "dictof"):
                     raise Unsupported("subscript assignment: " + ast.unparse(st))
                 kk, kt = self.expr(tgt.slice, env, hoist)
@@ -1185,7 +1253,9 @@ class Tr:
 
     def loop(self, st, rest, env, k, ind):
         hoist = []
-        tnames = self.targets(st.target)
+        nest = isinstance(st.target, ast.Tuple) and any(isinstance(x, ast.Tuple) for x in st.target.elts)
+        # a nested target `i, (a, b, c)`: its top-level components stand in until the element types are known
+        tnames = self.targets(st.target) if not nest else ["nested:%d" % i for i in range(len(st.target.elts))]
         it = st.iter
         # what is iterated
         if isinstance(it, ast.Call) and isinstance(it.func, ast.Attribute) and it.func.attr == "items" and not it.args:
@@ -1216,14 +1286,32 @@ class Tr:
                 xs, elt = l, list(lt[1][1])
             else:
                 raise Unsupported("loop target arity")
+        groups = None
+        if nest:      # expand the nested components: names and element types flattened, the binder pattern keeps the shape
+            names2, elt2, groups = [], [], []
+            for top, t in zip(st.target.elts, elt):
+                if isinstance(top, ast.Tuple):
+                    sub = self.targets(top)
+                    if t[0] != "tuple" or len(t[1]) != len(sub):
+                        raise Unsupported("nested loop target %s iterates %s" % (ast.unparse(top), t))
+                    names2 += sub
+                    elt2 += list(t[1])
+                    groups.append(len(sub))
+                else:
+                    names2 += self.targets(top)
+                    elt2.append(t)
+                    groups.append(0)
+            tnames, elt = names2, elt2
         for n, t in zip(tnames, elt):
             if n != "_" and self.var_type(n) != t:
                 raise Unsupported("loop target %s declared %s, iterates %s" % (n, self.var_type(n), t))
         body_assigned = self.assigned(st.body)
         bound = lambda v: v in env and env[v] != ("unit",)
-        carried = [v for v in (tnames + body_assigned) if bound(v) and v != "_"]
+        # a target bound before the loop at another type: rebound inside the body, not carried, poisoned afterwards
+        retyped = [n for n, t in zip(tnames, elt) if n != "_" and bound(n) and env[n] != t]
+        carried = [v for v in (tnames + body_assigned) if bound(v) and v != "_" and v not in retyped]
         carried = list(dict.fromkeys(carried))
-        dropped = [v for v in (tnames + body_assigned) if not bound(v) and v != "_"]
+        dropped = [v for v in (tnames + body_assigned) if (not bound(v) or v in retyped) and v != "_"]
         dropped = list(dict.fromkeys(dropped))
         if self.has_jump(st.body, (ast.Return,)):
             raise Unsupported("return inside a loop")
@@ -1251,6 +1339,12 @@ class Tr:
 
         body = self.block(st.body, env_body, kbody, ind + "    ")
         xpat = tvars[0] if len(tvars) == 1 else "'(" + ", ".join(tvars) + ")"
+        if groups is not None:
+            parts, i = [], 0
+            for g in groups:
+                parts.append(tvars[i] if g == 0 else "(" + ", ".join(tvars[i:i + g]) + ")")
+                i += max(g, 1)
+            xpat = "'(" + ", ".join(parts) + ")"
         spat = tuple_pat(carried) if carried else "(_ : unit)"
         if len(carried) == 1:
             spat = "(%s : %s)" % (carried[0], coq_type(env[carried[0]]))
